@@ -13,5 +13,6 @@ CONSTANTS
   BareUpdate = "refused"
   Sizes = {0}
   ReadLimit = 0
+  OwnFrame = TRUE
 INVARIANTS StoredForm ReadBack OnlyWhenEnabled
 CHECK_DEADLOCK FALSE
